@@ -130,6 +130,8 @@ def position_cfg(rng, tbl, local):
             params["p%d" % k] = "%%f%d(1)%%" % k
             svcs[n] = {"constructor": sp + ".NewB", "arguments": ["%%p%d%%" % k]}
             expect["p%d" % k] = spec.lab(pth, "Fn1")
+    if rng.random() < 0.7:
+        svcs["zz_later"] = {"todo": True}        # rendered by a template branch of its own
     cfg = {"meta": {"pkg": "gen", "imports": dict(tbl)}, "services": svcs}
     if fns:
         cfg["meta"]["functions"] = fns
@@ -141,7 +143,8 @@ def position_cfg(rng, tbl, local):
 
 def import_block(src):
     m = re.search(r"^import \((.*?)^\)", src, re.S | re.M)
-    return re.findall(r'^\s*(\w+)\s+"([^"]+)"', m.group(1), re.M) if m else []
+    # (local name or "" for an import spec without one, path)
+    return [(a, b) for a, b in re.findall(r'^\s*([\w.]*)\s*"([^"]+)"', m.group(1), re.M)] if m else []
 
 
 def level_b(ctx):
@@ -150,7 +153,7 @@ def level_b(ctx):
     for i in range(n):
         tbl = TABLES[i % len(TABLES)]
         cfg, used, expect = position_cfg(ctx.rng, tbl, local=(i % 2 == 0))
-        ops = [["counters"]] + [["param", p] for p in sorted(cfg.get("parameters", {}))] + [["get", s_] for s_ in cfg["services"]] + [["counters"]]
+        ops = [["counters"]] + [["param", p] for p in sorted(cfg.get("parameters", {}))] + [["get", s_] for s_ in cfg["services"] if not cfg["services"][s_].get("todo")] + [["counters"]]
         items.append((cfg, ops))
         metas.append((used, expect))
     # the alias table is the MERGED one: a later file re-pointing an alias wins for every reference, in whichever file
@@ -207,6 +210,8 @@ def level_b(ctx):
         if user != want:
             violations.append({"sig": "import-block", "what": "import block lists %r, the generated code uses %r" % (user, want), "files": rec["files"]})
         names = [n_ for n_, _ in blk]
+        if any(not re.fullmatch(r"i[0-9a-f]+_\w*", n_) for n_ in names):
+            violations.append({"sig": "import-block", "what": "an import spec does not carry a local name of the alias table's form: %r" % (blk,), "files": rec["files"]})
         if len(set(names)) != len(names) or len({p for _, p in blk}) != len(blk):
             violations.append({"sig": "import-block", "what": "local names / paths are not one-to-one: %r" % (blk,), "files": rec["files"]})
     return violations, corr_fail, dist
